@@ -7,6 +7,7 @@ from sa.model import AnchorMissing
 from sa.typestate import forward, isinstance_facts
 
 UDP = 'frappy.protocol.discovery.UDPListener'
+RECV = ('recvfrom', 'recvfrom_into', 'recv', 'recv_into')
 
 prop_info(
     'C19',
@@ -26,7 +27,7 @@ def _run(m):
 
 def _loop(run):
     for n in body_walk(run.node):
-        if isinstance(n, ast.While) and any(call_attr(c) == 'recvfrom' for c in calls_in(n)):
+        if isinstance(n, ast.While) and any(call_attr(c) in RECV for c in calls_in(n)):
             return n
     raise AnchorMissing('receive loop (while ... recvfrom) not found in UDPListener.run')
 
@@ -238,7 +239,7 @@ def answer_iff_request(ctx):
     tests = _discover_tests(cfg)
     from sa.lib import deep_calls
     sends = [site for c, o, site in deep_calls(m, run, lambda c: call_attr(c) == 'sendto') if any(a is loop for a in ancestors(site))]
-    recv = [i for c in calls_in(loop) if call_attr(c) == 'recvfrom' for i in cfg.node_of(c)]
+    recv = [i for c in calls_in(loop) if call_attr(c) in RECV for i in cfg.node_of(c)]
     if not sends:
         raise AnchorMissing('no sendto in the receive loop', violation='frappy.protocol.discovery.UDPListener.run:discover request is answered')
     if not tests:
@@ -366,3 +367,45 @@ def budget_measures_the_complete_message(ctx):
                 ctx.check(full, f'{init.qualname}:budget measures the complete message', n, 'self.description holds the given description when the budget is measured',
                           f'`{src(n)}` replaces the description before the budget is measured: the size is computed without the JSON-escaped description, so a '
                           'description with newlines / quotes / control characters (which grow when escaped) yields datagrams above 508 bytes', init)
+
+
+@rule('C19.R1b', min_instances=1)
+def decoded_bytes_are_the_datagram(ctx):
+    """the text handed to json.loads is the decoded datagram and nothing else: the first element of recvfrom(), or - when a
+    reused buffer is filled with recvfrom_into() - exactly the slice [:nbytes] of that call (the tail of an earlier, longer
+    datagram would otherwise decide whether a request is answered)"""
+    m = ctx.m
+    run = m.method(UDP, 'run', inherited=False)
+    ctx.analysed(run)
+    loads = [c for c in calls_in(run.node) if call_name(c) == 'json.loads' and c.args]
+    if not loads:
+        raise AnchorMissing('json.loads not found in UDPListener.run')
+    for c in loads:
+        key = f'{run.qualname}:json.loads gets exactly the received datagram'
+        decs = [x for x in ast.walk(c.args[0]) if isinstance(x, ast.Call) and call_attr(x) == 'decode']
+        for o in (origins(c.args[0], run.node) if isinstance(c.args[0], ast.Name) else []):
+            decs += [x for x in ast.walk(o) if isinstance(x, ast.Call) and call_attr(x) == 'decode']
+        if not decs:
+            ctx.undecided(key, c, f'`{src(c.args[0])}`: no decode call found', run)
+            continue
+        for d in decs:
+            recv = d.func.value
+            base = recv.value if isinstance(recv, ast.Subscript) else recv
+            if not isinstance(base, ast.Name):
+                ctx.undecided(key, d, f'decoded expression `{src(recv)}` not classified', run)
+                continue
+            defs = local_assigns(run.node, base.id)
+            from_recvfrom = bool(defs) and all(v is not None and isinstance(v, ast.Call) and call_attr(v) == 'recvfrom' for v, st, how in defs)
+            into = [x for x in calls_in(run.node) if call_attr(x) in ('recvfrom_into', 'recv_into') and x.args and src(x.args[0]) == base.id]
+            if from_recvfrom and not into:
+                ctx.ok(key, d, f'`{base.id}` is unpacked from recvfrom()', run)
+            elif into:
+                sliced = isinstance(recv, ast.Subscript) and isinstance(recv.slice, ast.Slice) and recv.slice.lower is None and \
+                    isinstance(recv.slice.upper, ast.Name) and any(isinstance(v, ast.Call) and call_attr(v) in ('recvfrom_into', 'recv_into')
+                                                                    for v, st, how in local_assigns(run.node, recv.slice.upper.id))
+                ctx.check(sliced, key, d, f'`{src(recv)}`: the slice [:nbytes] of the reused buffer',
+                          f'`{src(d)}` decodes the whole reused receive buffer, not the {"[:nbytes] slice of the" if not sliced else ""} datagram just received: after '
+                          'one longer datagram the tail stays in the buffer, every shorter discovery request is then malformed JSON and is '
+                          'never answered again (and a fragment can complete to a request)', run)
+            else:
+                ctx.undecided(key, d, f'origin of `{base.id}` not classified', run)
